@@ -79,6 +79,7 @@ def run(tier, seed):
                     reqs.append('hlog %d %s' % (tid, tb(data)))
                     meta.append((name, hdr, fields, data))
         replies = lean_batch(reqs)
+        opt_calls, OPT_N = [], (150 if thorough else 50)
         for m, r in zip(meta, replies):
             if m[0] == 'def':
                 if not r.ok:
@@ -86,6 +87,8 @@ def run(tier, seed):
                 continue
             name, hdr, fields, data = m
             real = hlog.parse_hlog_data(memoryview(data), hdr)
+            if len(opt_calls) < OPT_N and rng.random() < (0.3 if 0 < len(data) < sum(sz for _, sz in fields) else 0.03):
+                opt_calls.append(('hlog', data, [hdr], real))
             model, specf = r.lines(), r.lines()
             fits = bool(fields) and len(data) >= fields[0][1]
             ck.case(key=(name, data) if fits else None, sample={'table': name, 'len': len(data), 'data': data.hex()[:40]})
@@ -100,6 +103,27 @@ def run(tier, seed):
                 ck.fail('history log field lines contradict the property', rp | {'expected': specf[:5], 'actual': real[2 + nd + 3:][:5]}, 'fields')
             if real != model:
                 ck.disagree('parse_hlog_data differs from model', rp | {'impl': real[-4:], 'model': model[-4:]})
+        iod.check_optimised(ck, opt_calls, 'history-log samples')
+        # ---- through the shipped I/O-drawer parser module (subtype 72 of component 2C00): the "History Log" member is the stand-alone decoding of
+        # the same bytes with the drawer's header file -- for ANY bytes, all-zero ones included
+        try:
+            from udparsers.m2c00 import m2c00
+            from io_drawer.drawer_type import DRAWER_TYPES
+            for dt in DRAWER_TYPES:
+                hp = dt.get_header_file_path()
+                for data in [bytes(1), bytes(7), bytes(64), b'\0' * 30 + b'\x01', b'\x01' + bytes(40)] + [bytes(rng.choice([0, 0, 0, rng.randrange(256)]) for _ in range(rng.randrange(1, 80))) for _ in range(12 if thorough else 4)]:
+                    want = hlog.parse_hlog_data(memoryview(data), hp)
+                    try:
+                        got = json.loads(m2c00.parseUDToJson(72, dt.user_data_version, memoryview(data)))
+                    except Exception as e:  # noqa
+                        got = {'<raises>': type(e).__name__}
+                    ck.case(key=('m2c00', dt.name, data))
+                    ck.count('history log through udparsers.m2c00')
+                    if got != {'History Log': want}:
+                        ck.fail('the history log shown by the I/O-drawer parser module is not the decoding of its bytes', {'op': 'm2c00-hlog', 'drawer': dt.name, 'data_hex': data.hex(),
+                                'actual': str(got)[:200], 'expected': want[:3]}, 'm2c00_hlog')
+        except ImportError as e:
+            ck.skip('udparsers.m2c00 unavailable: %r' % e)
         # ---- a header file that is rewritten between two decodes in one process
         synth = [pth for nm, pth in loader_files if nm.startswith('synth') and os.path.exists(pth)]
         hdata = bytes((7 * i + 1) % 256 for i in range(24))
